@@ -4,9 +4,11 @@ package main
 
 import (
 	"fmt"
+	"os"
 	"go/constant"
 	"go/token"
 	"go/types"
+	"math"
 	"strings"
 
 	"golang.org/x/tools/go/ssa"
@@ -684,4 +686,689 @@ func ruleI16(c *Ctx) {
 		})
 	}
 	c.note("%d float products compared with zero", n)
+}
+
+// ---------- N16: the error of a numeric parse is looked at ----------
+
+func init() {
+	register("N16", "a numeric literal that does not fit is reported, not clamped: every call of strconv.ParseInt, ParseUint, ParseFloat or Atoi in the module has its error result tested or passed on; strconv returns the nearest representable value together with a range error, so discarding the error ('the syntax was checked above') turns 9223372036854775808 into MaxInt64", 6, ruleN16)
+	claim("C18", "N16")
+	claim("C14", "N16")
+	claim("C10", "N16")
+}
+
+func ruleN16(c *Ctx) {
+	n := 0
+	for _, fn := range c.P.Funcs {
+		if !isProdPkg(fnPkgPath(fn)) {
+			continue
+		}
+		ord := map[string]int{}
+		eachInstr(fn, func(in ssa.Instruction) {
+			call, ok := in.(*ssa.Call)
+			if !ok {
+				return
+			}
+			cal := call.Call.StaticCallee()
+			if cal == nil || fnPkgPath(cal) != "strconv" {
+				return
+			}
+			switch cal.Name() {
+			case "ParseInt", "ParseUint", "ParseFloat", "Atoi":
+			default:
+				return
+			}
+			n++
+			kb := fmt.Sprintf("%s: error of strconv.%s", fnName(fn), cal.Name())
+			ord[kb]++
+			key := kb
+			if ord[kb] > 1 {
+				key = fmt.Sprintf("%s #%d", kb, ord[kb])
+			}
+			used := false
+			if refs := call.Referrers(); refs != nil {
+				for _, r := range *refs {
+					ex, ok := r.(*ssa.Extract)
+					if !ok || ex.Index != 1 {
+						continue
+					}
+					if er := ex.Referrers(); er != nil {
+						for _, rr := range *er {
+							if _, dbg := rr.(*ssa.DebugRef); !dbg {
+								used = true
+							}
+						}
+					}
+				}
+			}
+			if used {
+				c.ok(key, c.P.Pos(call.Pos()), "the error result is used")
+			} else {
+				c.viol(key, c.P.Pos(call.Pos()), "the error of strconv."+cal.Name()+" is discarded: for a literal outside the target's range strconv returns the clamped extreme value and a range error, so the number silently becomes a different one")
+			}
+		})
+	}
+	c.note("%d strconv numeric parses", n)
+}
+
+// ---------- I17: conversions through big.Float keep full precision ----------
+
+func init() {
+	register("I17", "an integer becomes a float in one rounding: the value packages never set the precision or rounding mode of a big.Float ((*big.Float).SetPrec, SetMode; big.NewFloat is not used for conversion either): SetInt chooses a precision that holds the integer exactly, and Float64 then rounds once; a precision of 64 bits 'because a float64 has only 53' rounds twice and can land on the wrong side of a midpoint", 0, ruleI17)
+	claim("C10", "I17")
+}
+
+func ruleI17(c *Ctx) {
+	n := 0
+	for _, fn := range c.P.Funcs {
+		pk := relPkg(fnPkgPath(fn))
+		if !isProdPkg(fnPkgPath(fn)) || !(pk == "starlark" || strings.HasPrefix(pk, "lib/") || pk == "starlarkstruct" || pk == "syntax") {
+			continue
+		}
+		ord := 0
+		eachInstr(fn, func(in ssa.Instruction) {
+			call, ok := in.(*ssa.Call)
+			if !ok {
+				return
+			}
+			cal := call.Call.StaticCallee()
+			if cal == nil {
+				return
+			}
+			switch cal.String() {
+			case "(*math/big.Float).SetPrec", "(*math/big.Float).SetMode":
+				n++
+				ord++
+				c.viol(fmt.Sprintf("%s: %s #%d", fnName(fn), cal.Name(), ord), c.P.Pos(call.Pos()), "the precision or rounding mode of a big.Float is set by hand: a conversion that first rounds to that precision and then to float64 rounds twice, and the result can differ from the correctly rounded value by one unit in the last place")
+			}
+		})
+	}
+	c.note("%d explicit big.Float precision/mode settings", n)
+}
+
+// ---------- E13: the hash of a finite float is the hash of the equal integer ----------
+
+func init() {
+	register("E13", "a finite float hashes like the integer part it would compare equal to: every value (Float).Hash returns on a path where the float is finite is the result of the Int hash applied to a conversion of that very float (finiteFloatToInt(f).Hash()); a shortcut for some range ('floats above 2^64 have a zero low word') breaks hash(x) == hash(int(x)) there, so {2.0**70: 1}[2**70] is not found", 1, ruleE13)
+	claim("C11", "E13")
+	claim("C12", "E13")
+}
+
+func ruleE13(c *Ctx) {
+	fn := c.P.Func("starlark", "Float.Hash")
+	if fn == nil {
+		c.anchorFail("(starlark.Float).Hash not found")
+		return
+	}
+	recv := fn.Params[0]
+	derivesFromRecv := func(v ssa.Value) bool {
+		seen := map[ssa.Value]bool{}
+		var walk func(x ssa.Value, d int) bool
+		walk = func(x ssa.Value, d int) bool {
+			if x == ssa.Value(recv) {
+				return true
+			}
+			if seen[x] || d > 8 {
+				return false
+			}
+			seen[x] = true
+			switch y := x.(type) {
+			case *ssa.Call:
+				for _, a := range y.Call.Args {
+					if walk(a, d+1) {
+						return true
+					}
+				}
+			case *ssa.Convert:
+				return walk(y.X, d+1)
+			case *ssa.ChangeType:
+				return walk(y.X, d+1)
+			case *ssa.Extract:
+				return walk(y.Tuple, d+1)
+			case *ssa.Phi:
+				for _, e := range y.Edges {
+					if !walk(e, d+1) {
+						return false
+					}
+				}
+				return len(y.Edges) > 0
+			case *ssa.UnOp:
+				if al, ok := y.X.(*ssa.Alloc); ok && y.Op == token.MUL {
+					if refs := al.Referrers(); refs != nil {
+						for _, r := range *refs {
+							if st, ok := r.(*ssa.Store); ok && st.Addr == ssa.Value(al) {
+								return walk(st.Val, d+1)
+							}
+						}
+					}
+				}
+			}
+			return false
+		}
+		return walk(v, 0)
+	}
+	n := 0
+	eachInstr(fn, func(in ssa.Instruction) {
+		ret, ok := in.(*ssa.Return)
+		if !ok || len(ret.Results) == 0 {
+			return
+		}
+		n++
+		key := fmt.Sprintf("(starlark.Float).Hash: returned hash #%d", n)
+		pos := c.P.Pos(ret.Pos())
+		v := ret.Results[0]
+		if _, isK := v.(*ssa.Const); isK {
+			// a constant: only for non-finite floats
+			if len(floatNonFiniteOnly(fn, ret.Block(), recv)) == 0 {
+				c.ok(key, pos, "a constant, returned for NaN and the infinities only")
+			} else {
+				c.viol(key, pos, "a constant hash is returned for some finite floats: they no longer hash like the integers they are equal to")
+			}
+			return
+		}
+		okHash := false
+		if ex, isEx := v.(*ssa.Extract); isEx {
+			if call, isCall := ex.Tuple.(*ssa.Call); isCall {
+				cal := call.Call.StaticCallee()
+				if cal != nil && cal.Name() == "Hash" && len(call.Call.Args) > 0 && derivesFromRecv(call.Call.Args[0]) {
+					if _, tn := namedOf(cal.Signature.Recv().Type()); tn == "Int" {
+						okHash = true
+					}
+				}
+			}
+		}
+		if okHash {
+			c.ok(key, pos, "the Int hash of a conversion of the float itself")
+		} else {
+			c.viol(key, pos, "Float.Hash returns something other than the Int hash of the converted float: a finite float and the equal integer can hash differently, so a dict keyed by one is not found by the other")
+		}
+	})
+	if n == 0 {
+		c.anchorFail("(starlark.Float).Hash has no return")
+	}
+}
+
+// floatNonFiniteOnly: the finite representatives that can reach block b (empty = only NaN/Inf can).
+func floatNonFiniteOnly(fn *ssa.Function, b *ssa.BasicBlock, v ssa.Value) []float64 {
+	var out []float64
+	for _, r := range []float64{-math.MaxFloat64, -1e30, -1, 0, 1, 1e30, math.MaxFloat64} {
+		if floatRepReach(fn.Blocks[0], b, v, r) {
+			out = append(out, r)
+		}
+	}
+	return out
+}
+
+// ---------- H11: a slot scan goes on after a hash collision ----------
+
+func init() {
+	register("H11", "a hash collision does not end the search: in every hashtable method, the loop over the slots of one bucket and the loop over the chain of buckets are left early only where the key comparison succeeded (the result of Equal is true) or failed with an error; a slot whose stored hash matches but whose key is different is skipped, not taken as the end of the bucket - `break` there hides every later entry of the bucket from delete and lookup", 3, ruleH11)
+	claim("C12", "H11")
+	claim("C11", "H11")
+}
+
+func ruleH11(c *Ctx) {
+	n := 0
+	eq := c.P.Func("starlark", "Equal")
+	for _, fn := range c.P.Funcs {
+		if relPkg(fnPkgPath(fn)) != "starlark" || fn.Signature.Recv() == nil || qualType(fn.Signature.Recv().Type()) != "starlark.hashtable" {
+			continue
+		}
+		// only probing functions: they call Equal
+		var eqCalls []*ssa.Call
+		eachInstr(fn, func(in ssa.Instruction) {
+			if call, ok := in.(*ssa.Call); ok && call.Call.StaticCallee() == eq && eq != nil {
+				eqCalls = append(eqCalls, call)
+			}
+		})
+		if len(eqCalls) == 0 {
+			continue
+		}
+		loops := naturalLoops(fn)
+		ord := 0
+		// every key comparison lies in the same innermost loop as the hash test that admits it: if the
+		// slot loop cannot be re-entered after a comparison, a key that differs ends the scan of the bucket
+		for ei, ec := range eqCalls {
+			var hashIf *ssa.If
+			for _, pc := range pathConds(ec.Block()) {
+				for _, f := range expandFact(pc.If.Cond, pc.Branch) {
+					bo, ok := f.Cond.(*ssa.BinOp)
+					if !ok || !((bo.Op == token.EQL && f.Truth) || (bo.Op == token.NEQ && !f.Truth)) {
+						continue
+					}
+					for oi, o := range []ssa.Value{bo.X, bo.Y} {
+						if _, otherConst := []ssa.Value{bo.Y, bo.X}[oi].(*ssa.Const); otherConst {
+							continue
+						}
+						if ld, ok := o.(*ssa.UnOp); ok && ld.Op == token.MUL {
+							if fa, ok := ld.X.(*ssa.FieldAddr); ok {
+								if _, tn := namedOf(fa.X.Type()); tn == "entry" {
+									hashIf = pc.If
+								}
+							}
+						}
+					}
+				}
+			}
+			if hashIf == nil {
+				continue
+			}
+			var inner map[*ssa.BasicBlock]bool
+			for _, l := range loops {
+				if l[hashIf.Block()] && (inner == nil || len(l) < len(inner)) {
+					inner = l
+				}
+			}
+			if inner == nil {
+				continue
+			}
+			n++
+			key := fmt.Sprintf("%s: key comparison #%d stays in the slot loop", fnName(fn), ei+1)
+			if inner[ec.Block()] {
+				c.ok(key, c.P.Pos(ec.Pos()), "after the comparison the scan of the bucket's slots can go on")
+			} else {
+				c.viol(key, c.P.Pos(ec.Pos()), "once a stored key with the probe's hash has been compared, the loop over the bucket's slots is never re-entered: a key that differs (a hash collision) ends the scan of this bucket, so later entries of the bucket are not found")
+			}
+		}
+		var hs []*ssa.BasicBlock
+		for h := range loops {
+			hs = append(hs, h)
+		}
+		sortBlocks(hs)
+		for _, h := range hs {
+			loop := loops[h]
+			// loops that contain a key comparison
+			has := false
+			for _, ec := range eqCalls {
+				if loop[ec.Block()] {
+					has = true
+				}
+			}
+			if !has {
+				continue
+			}
+			n++
+			ord++
+			key := fmt.Sprintf("%s: probing loop #%d", fnName(fn), ord)
+			bad := ""
+			var at token.Pos
+			for _, b := range fn.Blocks {
+				if !loop[b] {
+					continue
+				}
+				for _, s := range b.Succs {
+					if loop[s] {
+						continue
+					}
+					// exit edge b -> s: allowed from the loop's own exhaustion tests (blocks that do not
+					// come after a hash match), or where Equal said yes / failed
+					conds := pathConds(b)
+					if len(b.Instrs) > 0 {
+						if x, ok := b.Instrs[len(b.Instrs)-1].(*ssa.If); ok && b.Succs[0] != b.Succs[1] {
+							conds = append(conds, pathCond{x, b.Succs[0] == s})
+						}
+					}
+					afterEqual := false
+					found := false
+					for _, ec := range eqCalls {
+						if ec.Block() == b || ec.Block().Dominates(b) {
+							if loop[ec.Block()] {
+								afterEqual = true
+							}
+						}
+					}
+					if !afterEqual {
+						continue
+					}
+					for _, pc := range conds {
+						for _, f := range expandFact(pc.If.Cond, pc.Branch) {
+							// eq == true
+							if ex, ok := f.Cond.(*ssa.Extract); ok && f.Truth {
+								if call, ok := ex.Tuple.(*ssa.Call); ok && call.Call.StaticCallee() == eq && ex.Index == 0 {
+									found = true
+								}
+							}
+							// err != nil
+							if x, neq, ok := nilTest(f.Cond); ok && neq == f.Truth {
+								if ex, ok := x.(*ssa.Extract); ok {
+									if call, ok := ex.Tuple.(*ssa.Call); ok && call.Call.StaticCallee() == eq {
+										found = true
+									}
+								}
+							}
+						}
+					}
+					if !found {
+						bad = fmt.Sprintf("block %d -> %d", b.Index, s.Index)
+						if len(b.Instrs) > 0 {
+							at = b.Instrs[len(b.Instrs)-1].Pos()
+						}
+					}
+				}
+			}
+			if bad == "" {
+				c.ok(key, c.P.Pos(h.Instrs[0].Pos()), "after a key comparison the loop is left only if the keys are equal or the comparison failed")
+			} else {
+				if at == token.NoPos {
+					at = fn.Pos()
+				}
+				c.viol(key, c.P.Pos(at), "the search leaves the loop ("+bad+") after comparing a key that turned out to be different: the remaining slots of the bucket (or buckets of the chain) are never examined, so entries stored after a colliding one cannot be found or deleted")
+			}
+		}
+	}
+	c.note("%d probing loops", n)
+}
+
+func sortBlocks(bs []*ssa.BasicBlock) {
+	for i := 1; i < len(bs); i++ {
+		for j := i; j > 0 && bs[j].Index < bs[j-1].Index; j-- {
+			bs[j], bs[j-1] = bs[j-1], bs[j]
+		}
+	}
+}
+
+// ---------- J10: JSON white space is exactly space, tab, line feed and carriage return ----------
+
+func init() {
+	register("J10", "the decoder skips exactly the white space JSON defines: among the functions json.decode reaches, every loop that reads one input byte per round and goes round again for the space character (0x20) is interpreted abstractly for all 256 byte values, and the set of bytes for which it continues must be {0x09, 0x0A, 0x0D, 0x20} (RFC 8259); a test through unicode.IsSpace also skips vertical tab, form feed, NEL and NBSP, so documents that are not JSON are accepted. A loop whose test cannot be evaluated for some byte is reported, not passed", 1, ruleJ10)
+	claim("C18", "J10")
+}
+
+func ruleJ10(c *Ctx) {
+	var fns []*ssa.Function
+	for f := range pkgReach(c.P, "lib/json", "decode") {
+		fns = append(fns, f)
+	}
+	sortFuncs(fns)
+	n := 0
+	for _, fn := range fns {
+		loops := naturalLoops(fn)
+		var hs []*ssa.BasicBlock
+		for h := range loops {
+			hs = append(hs, h)
+		}
+		sortBlocks(hs)
+		ord := 0
+		for _, h := range hs {
+			loop := loops[h]
+			// byte reads in the loop: s[i] on a string, or a load from &b[i]
+			var reads []ssa.Instruction
+			for _, b := range fn.Blocks {
+				if !loop[b] {
+					continue
+				}
+				for _, in := range b.Instrs {
+					v, ok := in.(ssa.Value)
+					if !ok {
+						continue
+					}
+					bt, isB := v.Type().Underlying().(*types.Basic)
+					if !isB || bt.Kind() != types.Uint8 {
+						continue
+					}
+					switch x := in.(type) {
+					case *ssa.Lookup, *ssa.Index:
+						reads = append(reads, in)
+					case *ssa.UnOp:
+						if _, ok := x.X.(*ssa.IndexAddr); ok && x.Op == token.MUL {
+							reads = append(reads, in)
+						}
+					}
+				}
+			}
+			if os.Getenv("VERIF_DEBUG") != "" {
+				fmt.Fprintf(os.Stderr, "J10: %s loop@%d blocks=%d reads=%d\n", fnName(fn), h.Index, len(loop), len(reads))
+			}
+			if len(reads) != 1 {
+				continue
+			}
+			rd := reads[0]
+			// does the byte reach a classification function of package unicode?
+			usesUnicode := false
+			for v := range forwardValues(fn, rd.(ssa.Value)) {
+				if call, ok := v.(*ssa.Call); ok {
+					if cal := call.Call.StaticCallee(); cal != nil && fnPkgPath(cal) == "unicode" {
+						usesUnicode = true
+					}
+				}
+			}
+			cont := map[int64]bool{}
+			undet := 0
+			for b := int64(0); b < 256; b++ {
+				_, exited, ok := j6Run(fn, rd, rd.(ssa.Value), b, map[ssa.Value]bool{}, h)
+				if !ok {
+					undet++
+					continue
+				}
+				if !exited {
+					cont[b] = true
+				}
+			}
+			if cont['a'] || cont['0'] || cont['"'] {
+				continue // a loop that runs over ordinary characters (a string or number scan)
+			}
+			if !cont[0x20] && !(usesUnicode && undet > 0) {
+				continue // not a white-space loop
+			}
+			n++
+			ord++
+			key := fmt.Sprintf("%s: white-space loop #%d", fnName(fn), ord)
+			pos := c.P.Pos(rd.Pos())
+			var extra, missing []string
+			for b := int64(0); b < 256; b++ {
+				want := b == 0x20 || b == 0x09 || b == 0x0a || b == 0x0d
+				if cont[b] && !want {
+					extra = append(extra, fmt.Sprintf("0x%02x", b))
+				}
+				if !cont[b] && want {
+					missing = append(missing, fmt.Sprintf("0x%02x", b))
+				}
+			}
+			switch {
+			case undet > 0:
+				c.viol(key, pos, fmt.Sprintf("the white-space test cannot be evaluated for %d byte values (it goes through a function the analysis does not interpret, such as unicode.IsSpace, whose notion of space is wider than JSON's)", undet))
+			case len(extra) > 0 || len(missing) > 0:
+				c.viol(key, pos, fmt.Sprintf("the loop skips %v in addition to, and fails to skip %v of, the four white-space characters of RFC 8259", extra, missing))
+			default:
+				c.ok(key, pos, "continues exactly for 0x09, 0x0A, 0x0D and 0x20")
+			}
+		}
+	}
+	if n == 0 {
+		c.anchorFail("no white-space skipping loop found in json.decode")
+	}
+}
+
+func sortFuncs(fs []*ssa.Function) {
+	for i := 1; i < len(fs); i++ {
+		for j := i; j > 0 && fnName(fs[j]) < fnName(fs[j-1]); j-- {
+			fs[j], fs[j-1] = fs[j-1], fs[j]
+		}
+	}
+}
+
+// forwardValues: the values computed from v inside fn (through any instruction that uses them).
+func forwardValues(fn *ssa.Function, v ssa.Value) map[ssa.Value]bool {
+	out := map[ssa.Value]bool{v: true}
+	work := []ssa.Value{v}
+	for len(work) > 0 {
+		x := work[0]
+		work = work[1:]
+		refs := x.Referrers()
+		if refs == nil {
+			continue
+		}
+		for _, r := range *refs {
+			if rv, ok := r.(ssa.Value); ok && !out[rv] {
+				out[rv] = true
+				work = append(work, rv)
+			}
+		}
+	}
+	return out
+}
+
+// ---------- Q9: a \x escape stands for a byte, so Quote uses it for ASCII only ----------
+
+func init() {
+	register("Q9", "Quote writes \\xNN only for code points below 0x80: in a Starlark string literal \\xNN denotes the byte NN, not the code point, so for U+0080 and above the two differ (the byte 0x85 alone is invalid UTF-8, the code point U+0085 is two bytes). For every place in syntax.Quote that appends `\\x` followed by hex digits of the decoded rune, the rune is varied over every value from 0 to 0x2FF and the boundary code points beyond, the tests on the way - comparisons with constants, strconv.IsPrint, unicode predicates, interpreted where they are simple range tests and otherwise taken both ways - are decided, and no value of 0x80 or more may reach it", 1, ruleQ9)
+	claim("C15", "Q9")
+}
+
+func ruleQ9(c *Ctx) {
+	fn := c.P.Func("syntax", "Quote")
+	if fn == nil {
+		c.anchorFail("syntax.Quote not found")
+		return
+	}
+	// the decoded rune: first result of utf8.DecodeRuneInString / DecodeRune
+	var rn ssa.Value
+	eachInstr(fn, func(in ssa.Instruction) {
+		if ex, ok := in.(*ssa.Extract); ok && ex.Index == 0 {
+			if call, ok := ex.Tuple.(*ssa.Call); ok {
+				if cal := call.Call.StaticCallee(); cal != nil && fnPkgPath(cal) == "unicode/utf8" && strings.HasPrefix(cal.Name(), "DecodeRune") {
+					rn = ex
+				}
+			}
+		}
+	})
+	if rn == nil {
+		c.anchorFail("syntax.Quote: no rune decoded with utf8.DecodeRune*")
+		return
+	}
+	// the variable the rune is assigned to: `r := rune(s[0]); if r >= utf8.RuneSelf { r, width = utf8.DecodeRuneInString(s) }`
+	// makes it a phi of the two
+	if refs := rn.Referrers(); refs != nil {
+		for _, r := range *refs {
+			if phi, ok := r.(*ssa.Phi); ok {
+				rn = phi
+			}
+		}
+	}
+	fromRune := forwardValues(fn, rn)
+	n := 0
+	// does this append emit the two characters \ and x (as a string constant or as two byte constants)?
+	emitsBackslashX := func(call *ssa.Call) bool {
+		b, ok := call.Call.Value.(*ssa.Builtin)
+		if !ok || b.Name() != "append" || len(call.Call.Args) < 2 {
+			return false
+		}
+		a := call.Call.Args[1]
+		if cv, isConv := a.(*ssa.Convert); isConv {
+			a = cv.X
+		}
+		if k, ok := a.(*ssa.Const); ok && k.Value != nil && constantStringVal(k) == `\x` {
+			return true
+		}
+		// append(buf, '\\', 'x', ...): the variadic slice is filled from an array literal
+		if sl, ok := a.(*ssa.Slice); ok {
+			if al, ok := sl.X.(*ssa.Alloc); ok {
+				vals := map[int64]int64{}
+				if refs := al.Referrers(); refs != nil {
+					for _, r := range *refs {
+						ia, ok := r.(*ssa.IndexAddr)
+						if !ok {
+							continue
+						}
+						idx, ok := constInt(ia.Index)
+						if !ok || ia.Referrers() == nil {
+							continue
+						}
+						for _, rr := range *ia.Referrers() {
+							if st, ok := rr.(*ssa.Store); ok {
+								if k, ok := constInt(st.Val); ok {
+									vals[idx] = k
+								}
+							}
+						}
+					}
+				}
+				for i, v := range vals {
+					if v == '\\' && vals[i+1] == 'x' {
+						return true
+					}
+				}
+			}
+		}
+		return false
+	}
+	// helpers of the package that emit the \x form for a byte parameter
+	hexHelper := map[*ssa.Function]bool{}
+	for _, g := range c.P.Funcs {
+		if relPkg(fnPkgPath(g)) != "syntax" || g == fn {
+			continue
+		}
+		eachInstr(g, func(in ssa.Instruction) {
+			if call, ok := in.(*ssa.Call); ok && emitsBackslashX(call) {
+				hexHelper[g] = true
+			}
+		})
+	}
+	eachInstr(fn, func(in ssa.Instruction) {
+		call, ok := in.(*ssa.Call)
+		if !ok {
+			return
+		}
+		viaHelper := false
+		if cal := call.Call.StaticCallee(); cal != nil && hexHelper[cal] {
+			for _, a := range call.Call.Args {
+				// the byte or rune argument (not the buffer, which has seen earlier runes)
+				if bt, ok := a.Type().Underlying().(*types.Basic); ok && bt.Info()&types.IsInteger != 0 && fromRune[a] {
+					viaHelper = true
+				}
+			}
+			if !viaHelper {
+				return
+			}
+		} else if !emitsBackslashX(call) {
+			return
+		}
+		// are the digits that follow taken from the rune (not from an input byte)?
+		digitsFromRune := viaHelper
+		for _, blk := range append([]*ssa.BasicBlock{call.Block()}, call.Block().Succs...) {
+			for _, in2 := range blk.Instrs {
+				switch x := in2.(type) {
+				case *ssa.Index:
+					if fromRune[x.Index] {
+						digitsFromRune = true
+					}
+				case *ssa.Lookup:
+					if fromRune[x.Index] {
+						digitsFromRune = true
+					}
+				case *ssa.IndexAddr:
+					if fromRune[x.Index] {
+						digitsFromRune = true
+					}
+				}
+			}
+		}
+		if !digitsFromRune {
+			return
+		}
+		n++
+		key := fmt.Sprintf("syntax.Quote: \\x escape of a rune #%d", n)
+		pos := c.P.Pos(call.Pos())
+		def := rn.(ssa.Instruction).Block()
+		var reps []int64
+		for r := int64(0); r < 0x300; r++ {
+			reps = append(reps, r)
+		}
+		reps = append(reps, 0x7ff, 0x800, 0xd7ff, 0xd800, 0xdfff, 0xe000, 0xfffd, 0xffff, 0x10000, 0x10ffff, 0x110000)
+		bad := int64(-1)
+		for _, r := range reps {
+			if r >= 0x80 && repReach(def, call.Block(), rn, r) {
+				bad = r
+				break
+			}
+		}
+		if bad < 0 {
+			c.ok(key, pos, "reachable only for code points below 0x80")
+		} else {
+			c.viol(key, pos, fmt.Sprintf("the \\x form is reachable for U+%04X: the literal then denotes the single byte 0x%02X, not the code point, so evaluating the quoted text does not give the original string back", bad, bad&0xff))
+		}
+	})
+	if n == 0 {
+		c.anchorFail("syntax.Quote: no \\x escape of a rune found")
+	}
 }
